@@ -95,6 +95,9 @@ def built_fn(prog, short):
     from .. import inline, known_fns
 
     f = inline.inline_into(prog, f, known_fns.KNOWN_FNS)
+    from .. import desugar
+
+    f = desugar.thread_fn(prog, f)
     upv = {}
     for u in raw["mir"].get("upvars", []):
         fields = [p for p in u["place"]["proj"] if p["k"] == "field"]
